@@ -2,6 +2,7 @@
    what store_rule put there, hostname_cosmetic_resources is populate-minus-prune, and under hash
    injectivity on the strings of the case that is the covers semantics. *)
 From Adb Require Import Base BaseProofs C17_Model C17_Proofs C16_Model.
+From Adb Require Generated.
 From Coq Require Import ZifyBool ZifyNat ZifyN.
 
 (* ------------------------------------------------------------------ rfind_byte *)
@@ -587,7 +588,7 @@ Proof.
   - destruct (str_eqb x s); reflexivity.
   - destruct (str_eqb s s') eqn:E; cbn.
     + apply str_eqb_eq in E; subst s'. destruct (str_eqb x s) eqn:E2; [|reflexivity].
-      rewrite str_eqb_refl. reflexivity.
+      rewrite ?str_eqb_refl; reflexivity.
     + destruct (str_eqb x s') eqn:E3.
       * apply str_eqb_eq in E3; subst s'. destruct (str_eqb x s) eqn:E4; [|reflexivity].
         apply str_eqb_eq in E4; subst. rewrite str_eqb_refl in E. discriminate.
@@ -604,9 +605,9 @@ Qed.
 
 Lemma sget_script_remove x s m : sget x (script_remove s m) = if str_eqb x s then None else sget x m.
 Proof.
-  induction m as [|[s' p] m IH]; cbn.
+  unfold script_remove. induction m as [|[s' p] m IH]; cbn [filter sget fst].
   - destruct (str_eqb x s); reflexivity.
-  - destruct (str_eqb s s') eqn:E; cbn.
+  - destruct (str_eqb s s') eqn:E; cbn [negb sget].
     + rewrite IH. destruct (str_eqb x s) eqn:E2; [reflexivity|].
       apply str_eqb_eq in E; subst s'. rewrite E2. reflexivity.
     + destruct (str_eqb x s') eqn:E3; [|exact IH].
@@ -771,3 +772,28 @@ Example ex_resources_blanket :
      (ex_rules ++ [mkRule [bs "example.co.uk"] [] [] [] false true (Some (bs "noop")) false (bs "{}") 0]))
      (bs "www.example.co.uk") (bs "example.co.uk") true) = [].
 Proof. vm_compute. reflexivity. Qed.
+
+(* ------------------------------------------------------------------ tie to the source text *)
+Definition all_tags : list tag := [THide; TUnhide; TInject; TUninject; TProc; TProcExc].
+Definition tag_name (t : tag) : string :=
+  match t with
+  | THide => "Hide" | TUnhide => "Unhide" | TInject => "InjectScript" | TUninject => "UninjectScript"
+  | TProc => "ProceduralOrAction" | TProcExc => "ProceduralOrActionException"
+  end.
+Definition bin_name (t : tag) : string :=
+  match t with
+  | THide => "hide" | TUnhide => "unhide" | TInject => "inject_script" | TUninject => "uninject_script"
+  | TProc => "procedural_action" | TProcExc => "procedural_action_exception"
+  end.
+Lemma tables_as_modelled :
+  Generated.c16_negated_table = map (fun t => (tag_name t, tag_name (neg_tag t))) all_tags /\
+  Generated.c16_store_table = map (fun t => (tag_name t, bin_name t)) all_tags /\
+  Generated.c16_hash_chain = ["request_entities"; "request_hostnames"].
+Proof. repeat split. Qed.
+
+Example ex_mask :
+  sget (bs "set, a, 1") (script_injections (hostname_cosmetic_resources ex_h (build_cache ex_h ex_uw ex_rules)
+        (bs "sub.example.com") (bs "example.com") false)) = Some 0%N.
+Proof. vm_compute. reflexivity. Qed.
+Example ex_entity_hyps : ~ In DOT (bs "example") /\ (bs "a.b." ++ bs "example")%list <> [].
+Proof. split; [cbn; intuition discriminate|discriminate]. Qed.
